@@ -86,7 +86,26 @@ ViewBytes(st) ==
     [] l.k = "backup" -> 2 * kin.n * SizeOfScalar(kin.ins) + kin.m * SizeOfScalar(kin.outs) + inner
     [] OTHER -> inner
 
-WellKinded(st) == ~IsIll(Kind(st)) /\ ViewBytes(st) <= 200
+\* an UPPER bound of sizeof(non_owning_data_t): every layer's own members rounded up to the strictest alignment (8).  By
+\* induction over the nesting  sizeof(level) <= roundup8(own members) + sizeof(inner level),  so a stack whose bound is at most
+\* 256 passes field_view's static_assert(sizeof(storage_t) <= 256) - the library's stated rule - including stacks that sit
+\* exactly ON the limit.
+Up8(n) == ((n + 7) \div 8) * 8
+RECURSIVE ViewBytesUp(_)
+ViewBytesUp(st) ==
+  LET l == Head(st)
+      inner == IF Len(st) = 1 THEN 0 ELSE ViewBytesUp(Tail(st))
+      kin == Kind(st) IN
+  CASE l.k = "array" -> 16
+    [] l.k = "constant" -> Up8(l.m * SizeOfScalar(l.t))
+    [] l.k = "identity" -> 8
+    [] l.k \in {"strided", "morton", "hilbert"} -> 8 * l.n + inner
+    [] l.k = "affine" -> Up8(kin.n * (kin.n + 1) * SizeOfScalar(kin.ins)) + inner
+    [] l.k = "clamp" -> Up8(2 * kin.n * SizeOfScalar(kin.ins)) + inner
+    [] l.k = "backup" -> Up8(2 * kin.n * SizeOfScalar(kin.ins)) + Up8(kin.m * SizeOfScalar(kin.outs)) + inner
+    [] OTHER -> inner + (IF Len(st) = 1 THEN 8 ELSE 0)
+
+WellKinded(st) == ~IsIll(Kind(st)) /\ ViewBytesUp(st) <= 256
 
 \* ------------------------------------------------------------------ denotation
 Undef == <<>>          \* (every defined result has at least one component)
